@@ -77,6 +77,7 @@ func main() {
 				}()
 				c := NewCtx(p, id, "quick")
 				registry[id](c)
+				applyFloors(c)
 				if c.Finish(d, seed, start, known, map[string]any{}) != 0 {
 					rc = 1
 				}
@@ -113,6 +114,7 @@ func main() {
 		}
 		c := NewCtx(p, *prop, *tier)
 		fn(c)
+		applyFloors(c)
 		extra := map[string]any{}
 		// positive/negative controls for the generic rules of this property
 		if cf, ok := controlRegistry[*prop]; ok {
